@@ -742,6 +742,12 @@ class BaseConnector:
                 if traces:
                     for trace in traces:
                         await trace.send_connection_queued_end()
+            except BaseException:
+                # We were handed a free slot but cannot use it (e.g. cancelled
+                # after being woken): pass the wake-up on to the next waiter.
+                if fut.done() and not fut.cancelled():
+                    self._release_waiter()
+                raise
             finally:
                 # pop the waiter from the queue if its still
                 # there and not already removed by _release_waiter
